@@ -68,16 +68,18 @@ def check_accessors(chk, cfg, real, exp_cbs, key):
         metric = d.get("kind", "metric") == "metric"
         name = "m" if metric else "SigmaZ"
         two = metric and trainrun.has_second(cfg, i + 1)
-        if sorted(o.names) != sorted([name] + (["a"] if two else [])):
-            probs.append(("names", [name] + (["a"] if two else []), list(o.names)))
+        n2 = trainrun.second_name(cfg, i + 1)
+        if sorted(o.names) != sorted([name] + ([n2] if two else [])):
+            probs.append(("names", [name] + ([n2] if two else []), list(o.names)))
         if two:
-            # every value is filed under the name of the metric that produced it
+            # every value is filed under the name of the metric that produced it (a name the evaluator uses for an
+            # attribute of its own is reachable by subscript and get_value only)
             want2 = [trainrun.second_value(e) for e in eps]
-            for how, arr in (("getattr", o.a), ("getitem", o["a"])):
-                if [float(x) for x in arr] != want2:
-                    probs.append((how, want2, [float(x) for x in arr]))
-            if exp and float(o.get_value("a")) != want2[-1]:
-                probs.append(("get_value()", want2[-1], float(o.get_value("a"))))
+            for how, arr in ((("getattr", getattr(o, n2)),) if n2 == "a" else ()) + (("getitem", o[n2]),):
+                if not hasattr(arr, "__iter__") or isinstance(arr, dict) or [float(x) for x in arr] != want2:
+                    probs.append((how, want2, repr(arr)[:200]))
+            if exp and float(o.get_value(n2)) != want2[-1]:
+                probs.append(("get_value()", want2[-1], float(o.get_value(n2))))
         if metric:
             for how, arr in (("getattr", getattr(o, name)), ("getitem", o[name])):
                 if [float(x) for x in arr] != vals:
@@ -89,7 +91,7 @@ def check_accessors(chk, cfg, real, exp_cbs, key):
                 probs.append(("get_value()", vals[-1], float(o.get_value(name))))
             explast = {name: vals[-1]} if exp else {}
             if two and exp:
-                explast["a"] = trainrun.second_value(eps[-1])
+                explast[n2] = trainrun.second_value(eps[-1])
             if {k: float(v) for k, v in o.last.items()} != explast:
                 probs.append(("last", explast, dict(o.last)))
         else:
@@ -130,13 +132,14 @@ def check_csv(chk, cfg, real, all_recs, key):
         exp = all_recs[i]
         if two:
             # columns are identified by their header; each value sits under the name of its metric
-            ok = rows and rows[0][0] == "epoch" and sorted(rows[0][1:]) == ["a", "m"] and len(rows) == 1 + len(exp)
+            n2 = trainrun.second_name(cfg, i + 1)
+            ok = rows and rows[0][0] == "epoch" and sorted(rows[0][1:]) == sorted([n2, "m"]) and len(rows) == 1 + len(exp)
             if ok:
-                cm, ca = rows[0].index("m"), rows[0].index("a")
+                cm, ca = rows[0].index("m"), rows[0].index(n2)
                 for r, e in zip(rows[1:], exp):
                     if int(r[0]) != e[0] or float(r[cm]) != float(e[1]) or float(r[ca]) != trainrun.second_value(e[0]):
                         ok = False
-            header = ["epoch", "m", "a"]
+            header = ["epoch", "m", n2]
         else:
             ok = rows and rows[0] == header and len(rows) == 1 + len(exp)
         if ok and not two:
